@@ -272,6 +272,27 @@ static void run_case(const uint8_t *b, size_t n)
 	vz_finish();
 }
 
+/* read the result record of a forked case until the case process itself has exited: processes left behind by the case may
+ * keep the pipe open, so end-of-file cannot be waited for */
+#include <poll.h>
+static void collect_result(pid_t pid, int fd, char *res, size_t cap, size_t *rl, int *st)
+{
+	int exited = 0;
+	fcntl(fd, F_SETFL, fcntl(fd, F_GETFL) | O_NONBLOCK);
+	for (;;) {
+		struct pollfd p = { fd, POLLIN, 0 };
+		poll(&p, 1, exited ? 0 : 50);
+		ssize_t r;
+		char junk[4096];
+		while ((r = read(fd, *rl < cap - 1 ? res + *rl : junk, *rl < cap - 1 ? cap - 1 - *rl : sizeof junk)) > 0) if (*rl < cap - 1) *rl += r;
+		if (exited) break;
+		pid_t w = waitpid(pid, st, WNOHANG);
+		if (w == pid || (w < 0 && errno != EINTR)) exited = 1;
+	}
+	res[*rl] = 0;
+	close(fd);
+}
+
 /* ------------------------------------------------------------------ batch worker */
 #define HSET_BITS 20
 static uint64_t *hset; static size_t hset_n;
@@ -328,12 +349,8 @@ static int batch(int argc, char **argv)
 			_exit(0);
 		}
 		close(pfd[1]);
-		char res[4096]; size_t rl = 0; ssize_t r;
-		while ((r = read(pfd[0], res + rl, sizeof res - 1 - rl)) > 0 || (r < 0 && errno == EINTR)) { if (r > 0) rl += r; if (rl >= sizeof res - 1) break; }
-		/* drain the rest */
-		{ char junk[4096]; while (read(pfd[0], junk, sizeof junk) > 0) ; }
-		res[rl] = 0; close(pfd[0]);
-		int st; while (waitpid(pid, &st, 0) < 0 && errno == EINTR) ;
+		char res[4096]; size_t rl = 0; int st = 0;
+		collect_result(pid, pfd[0], res, sizeof res, &rl, &st);
 		kill(-pid, SIGKILL);   /* stray helpers of the case (children, threads are gone with it) */
 		{ char sp[128]; snprintf(sp, sizeof sp, "/tmp/vfz-scratch.%d", (int)pid); struct stat sb; if (!stat(sp, &sb)) scratch_remove(sp); }
 		char *rp = strstr(res, "RES v=");
@@ -407,11 +424,8 @@ static int multi(const char *listfile)
 			_exit(0);
 		}
 		close(pfd[1]);
-		char res[4096]; size_t rl = 0; ssize_t r;
-		while ((r = read(pfd[0], res + rl, sizeof res - 1 - rl)) > 0 || (r < 0 && errno == EINTR)) { if (r > 0) rl += r; if (rl >= sizeof res - 1) break; }
-		{ char junk[4096]; while (read(pfd[0], junk, sizeof junk) > 0) ; }
-		res[rl] = 0; close(pfd[0]);
-		int st; while (waitpid(pid, &st, 0) < 0 && errno == EINTR) ;
+		char res[4096]; size_t rl = 0; int st = 0;
+		collect_result(pid, pfd[0], res, sizeof res, &rl, &st);
 		kill(-pid, SIGKILL);
 		{ char sp[128]; snprintf(sp, sizeof sp, "/tmp/vfz-scratch.%d", (int)pid); struct stat sb; if (!stat(sp, &sb)) scratch_remove(sp); }
 		char *rp = strstr(res, "RES v=");
